@@ -1,6 +1,7 @@
 package main
 
 import (
+	"strings"
 	"go/token"
 	"go/types"
 
@@ -29,7 +30,7 @@ func (E *Engine) scanGlobals() {
 		return gi
 	}
 	for _, fn := range E.L.Funcs {
-		isInit := fn.Name() == "init" || (fn.Synthetic != "" && fn.Name() == "init")
+		isInit := fn.Signature.Recv() == nil && fn.Parent() == nil && (fn.Name() == "init" || strings.HasPrefix(fn.Name(), "init#"))
 		for _, b := range fn.Blocks {
 			for _, in := range b.Instrs {
 				for _, op := range in.Operands(nil) {
@@ -126,4 +127,11 @@ func (e *FnEnc) constEval(v ssa.Value, depth int) (string, bool) {
 		}
 	}
 	return "", false
+}
+
+// globalIsStable: the variable is assigned only by its package's init functions and its
+// address never escapes, so every function sees the same value.
+func (E *Engine) globalIsStable(g *ssa.Global) bool {
+	gi := E.globals[g]
+	return gi != nil && gi.storesOutsideInit == 0 && !gi.addrEscapes
 }
